@@ -34,6 +34,10 @@ def structural():
     yield "dead-logic-and-unobserved-input", {"dead"}, _b({"a": I, "b": I, "u": I, "g": ("and", ["a", "b"]), "dead1": ("not", ["u"]), "dead2": ("or", ["dead1", "a"]), "o": ("buf", ["g"])}, ["o"])
     yield "many-outputs-sharing-logic", {"multi-output"}, _b({"a": I, "b": I, "c": I, "g0": ("and", ["a", "b"]), "g1": ("or", ["g0", "c"]), "g2": ("nand", ["g1", "a"]), "g3": ("xor", ["g2", "g0"]),
                                                               "g4": ("nor", ["g2", "c"]), "g5": ("buf", ["g2"])}, ["g3", "g4", "g1", "g5", "g0"])
+    # two outputs whose cones share a sub-tree with an inner block fed only by other blocks (defect #25: the two copies of that
+    # block, one per output cone, removed each other from the supergate cover)
+    yield "shared-subtree-under-two-outputs", {"multi-output", "shared"}, _b({"a": I, "b": I, "c": I, "d": I, "e": I, "t0": ("and", ["c", "e"]), "t1": ("and", ["b", "d"]), "t2": ("and", ["t0", "t1"]),
+                                                                              "g": ("and", ["a", "t2"]), "tap": ("not", ["g"]), "u": ("and", ["g", "tap"]), "o": ("and", ["a", "u"])}, ["o", "g"])
     yield "heavy-fanout-net", {"fanout"}, _b({"a": I, "b": I, "s": ("xor", ["a", "b"]), "l1": ("not", ["s"]), "l2": ("buf", ["s"]), "l3": ("and", ["s", "a"]), "l4": ("or", ["s", "b"]), "l5": ("nand", ["s", "l2"]),
                                               "l6": ("xnor", ["s", "l1", "l2"]), "o": ("or", ["l1", "l3", "l4", "l5", "l6"])}, ["o", "l6"])
     yield "reconvergence-through-inverters", {"reconv"}, _b({"a": I, "b": I, "n": ("not", ["a"]), "p": ("and", ["a", "b"]), "q": ("and", ["n", "b"]), "o": ("or", ["p", "q"]), "z": ("and", ["a", "n"])}, ["o", "z"])
@@ -78,9 +82,18 @@ def adversarial_names(limit=None):
     yield "name::prefixes", {"names"}, _b({"n": I, "n_": I, "n_0": I, "n_0_": ("and", ["n", "n_"]), "n_0_0": ("xor", ["n_0_", "n_0"]), "n0": ("nor", ["n_0_0", "n"])}, ["n0", "n_0_"])
 
 
+REINSERTED = ("feedthrough-and-gate", "controlling-constants", "constant-outputs", "single-input-gates", "net-and-its-buffer", "dead-logic-and-unobserved-input",
+              "many-outputs-sharing-logic", "buffer-and-inverter-chains", "shared-subtree-under-two-outputs")
+
+
 def corpus(tier="quick", want=None, exclude=()):
     """(name, tags, circuit) - filtered by tag sets."""
-    items = list(structural()) + list(adversarial_names(limit=None if tier == "thorough" else 24))
+    from .semantic import reinserted
+
+    items = list(structural())
+    # node iteration order is insertion order: some members again with their nodes inserted sinks-first
+    items += [(f"{n}@sinks-first", set(t) | {"reinserted"}, reinserted(c, "sinks-first")) for n, t, c in list(items) if n in REINSERTED]
+    items += list(adversarial_names(limit=None if tier == "thorough" else 24))
     for name, tags, c in items:
         if want is not None and not (tags & set(want)):
             continue
